@@ -174,6 +174,11 @@ func transitionWordBreakState(state int, r rune, b []byte, str string) (newState
 		// WB3c.
 		return wbAny, false
 	}
+
+	// WB3c also applies to the few Extended_Pictographic code points which have
+	// a Word_Break property of their own (e.g. U+2139). They are not marked as
+	// such in the word table, so we consult the grapheme table.
+	wb3c := state >= 0 && state&wbZWJBit != 0 && propertyGraphemes(r) == prExtendedPictographic
 	if state >= 0 {
 		state = state &^ wbZWJBit
 	}
@@ -205,6 +210,9 @@ func transitionWordBreakState(state int, r rune, b []byte, str string) (newState
 			// No known transition. WB999: Any ÷ Any.
 			newState, wordBreak, rule = wbAny, true, 9990
 		}
+	}
+	if wb3c {
+		wordBreak = false
 	}
 
 	// For those rules that need to look up runes further in the string, we
